@@ -1,8 +1,19 @@
 """C16 — static files: only contents from inside the document root, exact byte ranges."""
-import sys, os, re, atexit, shutil, socket
+import sys, os, re, atexit, shutil, socket, hashlib
 sys.path.insert(0, os.path.dirname(os.path.abspath(__file__)))
 import common
-from common import Prop, nlist, nlistlist, natlit
+from common import Prop, natlit
+
+
+def nlist(b):
+    """str -> Coq term of type list N (a string literal when printable ASCII: much cheaper to parse)"""
+    if isinstance(b, str) and all(32 <= ord(ch) < 127 and ch != '"' for ch in b):
+        return '(L "%s"%%string)' % b
+    return common.nlist(b)
+
+
+def nlistlist(l):
+    return '[%s]' % '; '.join(nlist(x) for x in l)
 from urllib.parse import unquote as _std_unquote, quote as _std_quote
 
 from circuits import Manager, BaseComponent, handler
@@ -253,6 +264,18 @@ def run_request(lay, mount, dirlisting, mode, path, range_hdr=None, proto='1.1')
         return r
 
     static_mod.unquote = rec_unquote
+    asked = []
+    saved = {n: getattr(os.path, n) for n in ('exists', 'isfile', 'isdir')}
+
+    def rec_fs(fn):
+        def w(p):
+            if isinstance(p, str) and p not in asked:
+                asked.append(p)
+            return fn(p)
+        return w
+
+    for n, fn in saved.items():
+        setattr(os.path, n, rec_fs(fn))
     _audit['opened'], _audit['listed'] = [], []
     _audit['on'] = True
     try:
@@ -275,9 +298,12 @@ def run_request(lay, mount, dirlisting, mode, path, range_hdr=None, proto='1.1')
     finally:
         _audit['on'] = False
         static_mod.unquote = orig_unquote
+        for n, fn in saved.items():
+            setattr(os.path, n, fn)
     r = parse_response(b''.join(probe.out))
+    fs = [[p, os.path.exists(p), os.path.isfile(p), os.path.isdir(p)] for p in asked]
     return {'resp': r, 'opened': list(_audit['opened']), 'listed': list(_audit['listed']), 'unq': calls,
-            'seen': list(probe.seen)}
+            'seen': list(probe.seen), 'fs': fs}
 
 
 # ----------------------------------------------------------------------------- independent reading of the property
@@ -305,8 +331,9 @@ def resolve(root, mount, path):
     return '/' + '/'.join(cur)
 
 
-def spec_ranges(hdr, size):
-    """RFC 7233 reading of a Range header -> 'absent' | 'malformed' | list of satisfiable (first, last)"""
+def spec_ranges(hdr, size, lenient=False):
+    """RFC 7233 reading of a Range header -> 'absent' | 'malformed' | list of satisfiable (first, last).
+    lenient: a reversed spec whose first byte lies beyond the file is read as unsatisfiable instead of invalid."""
     if not hdr:
         return 'absent'
     unit, sep, rest = hdr.partition('=')
@@ -322,7 +349,7 @@ def spec_ranges(hdr, size):
         if m:
             first = int(m.group(1))
             last = int(m.group(2)) if m.group(2) else None
-            if last is not None and last < first:
+            if last is not None and last < first and not (lenient and first >= size):
                 return 'malformed'
             if first < size:
                 out.append((first, size - 1 if last is None else min(last, size - 1)))
@@ -424,7 +451,7 @@ class C16(Prop):
     id = 'C16'
     props_file = 'Props/C16.v'
     imports = ['Model.StaticPath', 'Model.Ranges', 'Model.StaticObs']
-    quick_n = 1500
+    quick_n = 1200
     thorough_n = 12000
     rule = ('request paths of up to 6 segments over hostile ("..", ".", "", %2e%2e, %252e%252e, ..%2f, backslash, %00, '
             'overlong UTF-8 ...) and benign (names inside / beside / above the root) segments, decoded-absolute paths, '
@@ -464,7 +491,7 @@ class C16(Prop):
                 cases.append({'k': 'path', 'lay': lay, 'mount': mount, 'mode': mode, 'path': path,
                               'listing': rng.random() < 0.5})
             else:
-                size = rng.choice(RANGE_SIZES[:4]) if (tier == 'quick' and big >= 25) else rng.choice(RANGE_SIZES)
+                size = rng.choice(RANGE_SIZES[:4]) if (big >= (6 if tier == 'quick' else 60)) else rng.choice(RANGE_SIZES)
                 big += size == 100000
                 hdr = gen_range(rng, size)
                 q = rng.random()
@@ -496,7 +523,8 @@ class C16(Prop):
         r = o['resp']
         st = r['status'] if r else None
         self.stats['statuses'][str(st)] = self.stats['statuses'].get(str(st), 0) + 1
-        out = {'status': st, 'opened': o['opened'], 'listed': o['listed'], 'unq': o['unq'], 'seen': o['seen']}
+        out = {'status': st, 'opened': o['opened'], 'listed': o['listed'], 'unq': o['unq'], 'seen': o['seen'],
+               'fs': o['fs']}
         if r:
             out['extra'] = r['extra']
             out['ctype'] = r['headers'].get('content-type', '')
@@ -504,6 +532,8 @@ class C16(Prop):
             out['clen'] = r['headers'].get('content-length')
             body = r['body']
             out['blen'] = len(body)
+            out['sha'] = hashlib.sha1(body).hexdigest()
+            out['marker'] = MARKER in body
             out['body'] = body.decode('latin-1') if len(body) <= 5000 else None
             if k == 'range':
                 content = pattern(c['size'])
@@ -563,14 +593,13 @@ class C16(Prop):
     # ---- model
     def _path_term(self, c, reqpath, o):
         L = layout(c['lay'])
-        inside = lambda p: p == L['root'] or p.startswith(L['root'] + '/')
-        files = [p for p in sorted(L['files']) if inside(p)]
-        dirs = [p for p in L['dirs'] if inside(p)]
+        b = lambda x: 'true' if x else 'false'
+        fs = '[%s]' % '; '.join('(%s, (%s, %s, %s))' % (nlist(p), b(e), b(f), b(d)) for p, e, f, d in o['fs'])
         tbl = '[%s]' % '; '.join('(%s, %s)' % (nlist(a), nlist(b)) for a, b in o['unq'])
         mount = 'None' if c['mount'] is None else '(Some %s)' % nlist(c['mount'])
         defaults = nlistlist(['index.html', 'index.xhtml'])
-        return 'obs_path %s %s %s %s %s %s %s %s' % (
-            nlistlist(files), nlistlist(dirs), tbl, mount, nlist(L['root']), defaults,
+        return 'obs_path %s %s %s %s %s %s %s' % (
+            fs, tbl, mount, nlist(L['root']), defaults,
             'true' if c['listing'] else 'false', nlist(reqpath))
 
     def model_term(self, c):
@@ -582,7 +611,7 @@ class C16(Prop):
         if o is None:
             return None
         if k == 'range':
-            return 'obs_range %s %s %s' % ('true' if c['proto'] == '1.1' else 'false', hv(c['hdr']), natlit(c['size']))
+            return 'obs_range %s %s %s' % ('true' if c['proto'] == '1.1' else 'false', hv(c['hdr']), '%d%%N' % c['size'])
         if c['mode'] == 'direct':
             return self._path_term(c, c['path'], o)
         if len(o['seen']) == 1:      # the front end let the request through: the dispatcher saw this path
@@ -618,8 +647,6 @@ class C16(Prop):
             return self._oracle_fn(c, obs)
         if obs['status'] is None:
             return 'no response at all'
-        if obs.get('extra'):
-            return 'more than one response / trailing bytes on the connection (%s)' % obs['extra']
         if k == 'path':
             return self._oracle_path(c, obs)
         return self._oracle_range(c, obs)
@@ -632,9 +659,9 @@ class C16(Prop):
         for p in obs['opened'] + obs['listed']:
             if not inside(os.path.realpath(p)):
                 return 'read %s, which is outside the document root %s' % (p, root)
-        body = (obs['body'] or '').encode('latin-1')
-        if MARKER in body:
-            return 'response carries content planted outside the document root: %r' % body[:60]
+        if obs['marker']:
+            return 'response carries content planted outside the document root: %r' % (obs['body'] or '')[:60]
+        same = lambda content: hashlib.sha1(content).hexdigest() == obs['sha']
         if st >= 500:
             return 'internal error %d' % st
         if st in (301, 302, 303, 307, 308, 400, 404):
@@ -653,14 +680,14 @@ class C16(Prop):
         if target is None:
             return 'content served for a path that denotes nothing inside the document root'
         if target in L['files']:
-            if body != L['files'][target]:
+            if not same(L['files'][target]):
                 return 'body differs from the contents of %s' % target
             return None
         if target in L['dirs']:
             for dflt in ('index.html', 'index.xhtml'):
                 f = target + '/' + dflt
                 if f in L['files']:
-                    if body != L['files'][f]:
+                    if not same(L['files'][f]):
                         return 'body differs from the default document %s' % f
                     return None
             if not c['listing']:
@@ -668,7 +695,7 @@ class C16(Prop):
             names = sorted(n + ('/' if os.path.isdir(os.path.join(target, n)) else '')
                            for n in os.listdir(target) if not n.startswith('.'))
             from html import unescape
-            shown = sorted(unescape(x) for x in re.findall(r'<li><a href="[^"]*">([^<]*)</a></li>', obs['body'])
+            shown = sorted(unescape(x) for x in re.findall(r'<li><a href="[^"]*">([^<]*)</a></li>', obs['body'] or '')
                            if x != '..')
             if shown != names:
                 return 'listing shows %r, directory %s holds %r' % (shown, target, names)
@@ -676,6 +703,10 @@ class C16(Prop):
         return 'content served for %s, which does not exist' % target
 
     def _oracle_range(self, c, obs):
+        a = self._oracle_range1(c, obs, False)
+        return a and self._oracle_range1(c, obs, True) and a
+
+    def _oracle_range1(self, c, obs, lenient):
         st = obs['status']
         d = obs.get('obs') or {}
         size = c['size']
@@ -685,7 +716,7 @@ class C16(Prop):
             return 'unexpected status %d' % st
         if d.get('bad'):
             return '%s (Range: %r, %d byte file)' % (d['bad'], c['hdr'], size)
-        spec = spec_ranges(c['hdr'], size) if c['proto'] == '1.1' else 'absent'
+        spec = spec_ranges(c['hdr'], size, lenient) if c['proto'] == '1.1' else 'absent'
         if spec == 'absent':
             return None if st == 200 else 'status %d without a (bytes) Range header' % st
         if spec == 'malformed' or spec == []:
@@ -705,16 +736,21 @@ class C16(Prop):
         return None
 
     def _oracle_fn(self, c, obs):
+        a = self._oracle_fn1(c, obs, False)
+        return a and self._oracle_fn1(c, obs, True) and a
+
+    def _oracle_fn1(self, c, obs, lenient):
         fn, size = obs['fn'], c['size']
         if fn[0] == 3:
             return 'get_ranges(%r, %d) raised %s' % (c['hdr'], size, obs.get('exc'))
-        spec = spec_ranges(c['hdr'], size)
+        spec = spec_ranges(c['hdr'], size, lenient)
         if fn[0] == 1:
             for a, b in fn[1]:
                 if not (0 <= a < b <= size):
                     return 'get_ranges(%r, %d) returned the slice (%d, %d)' % (c['hdr'], size, a, b)
             if not isinstance(spec, list):
-                return 'get_ranges(%r, %d) returned ranges for a %s header' % (c['hdr'], size, spec)
+                # malformed: ignoring the header (None) and rejecting it (empty list -> 416) are both allowed
+                return None if not fn[1] else 'get_ranges(%r, %d) returned ranges for a %s header' % (c['hdr'], size, spec)
             if sorted(set(spec)) != sorted(set((a, b - 1) for a, b in fn[1])):
                 return 'get_ranges(%r, %d) = %r, requested %r' % (c['hdr'], size, fn[1], spec)
         elif fn[0] == 0:
